@@ -38,6 +38,7 @@ type Clause struct {
 type LoopSpec struct {
 	N          int
 	Invariants []*Clause
+	Steps      []*Clause // transition clauses: old(e) is e at the loop head of the same iteration; checked at back edges, never assumed
 	// locals (beyond the function's parameters) passed to the invariant functions
 	Locals []*types.Var
 }
@@ -311,11 +312,11 @@ func parseContracts(fset *token.FileSet, f *ast.File, pkgPath string) (map[strin
 			case "loop":
 				var n int
 				var kind string
-				if _, err := fmt.Sscanf(rest, "%d %s", &n, &kind); err != nil || kind != "invariant" {
+				if _, err := fmt.Sscanf(rest, "%d %s", &n, &kind); err != nil || (kind != "invariant" && kind != "step") {
 					return nil, fmt.Errorf("%s:%d: bad loop clause %q", fname, line, rest)
 				}
-				i := strings.Index(rest, "invariant")
-				body := strings.TrimSpace(rest[i+len("invariant"):])
+				i := strings.Index(rest, kind)
+				body := strings.TrimSpace(rest[i+len(kind):])
 				var tags []string
 				for strings.HasPrefix(body, "@") {
 					t, r, _ := strings.Cut(body, " ")
@@ -328,7 +329,11 @@ func parseContracts(fset *token.FileSet, f *ast.File, pkgPath string) (map[strin
 					ls = &LoopSpec{N: n}
 					cur.Loops[n] = ls
 				}
-				ls.Invariants = append(ls.Invariants, lastClause)
+				if kind == "step" {
+					ls.Steps = append(ls.Steps, lastClause)
+				} else {
+					ls.Invariants = append(ls.Invariants, lastClause)
+				}
 			default:
 				return nil, fmt.Errorf("%s:%d: unknown clause %q", fname, line, kw)
 			}
@@ -547,7 +552,7 @@ func (e *Engine) genGhost(tp *TargetPkg) ([]byte, error) {
 				scope := tp.Types.Scope().Innermost(pos)
 				seen := map[*types.Var]bool{}
 				ls.Locals = nil
-				for _, cl := range ls.Invariants {
+				for _, cl := range append(append([]*Clause{}, ls.Invariants...), ls.Steps...) {
 					txt := rewriteImplies(rewriteOld(cl.Orig))
 					ex, err := parser.ParseExpr(txt)
 					if err != nil {
@@ -575,6 +580,12 @@ func (e *Engine) genGhost(tp *TargetPkg) ([]byte, error) {
 				for i, cl := range ls.Invariants {
 					cl.Text = rewriteImplies(rewriteOld(cl.Orig))
 					cl.Ghost = fmt.Sprintf("vs_inv_%s_%d_%d", c.mangled, n, i+1)
+					useImports(cl.Text, lshadow)
+					fmt.Fprintf(&body, "//line %s:%d\nfunc %s(%s) bool { return %s }\n\n", c.File, cl.Line, cl.Ghost, strings.Join(lps, ", "), cl.Text)
+				}
+				for i, cl := range ls.Steps {
+					cl.Text = rewriteImplies(rewriteOld(cl.Orig))
+					cl.Ghost = fmt.Sprintf("vs_step_%s_%d_%d", c.mangled, n, i+1)
 					useImports(cl.Text, lshadow)
 					fmt.Fprintf(&body, "//line %s:%d\nfunc %s(%s) bool { return %s }\n\n", c.File, cl.Line, cl.Ghost, strings.Join(lps, ", "), cl.Text)
 				}
